@@ -102,6 +102,8 @@ static void vx_ref_release(struct shared_state *s) { if (g_refs > 0) g_refs--; e
 /* auto r = std::move(*this): the receiver's `state` member moves into the local r, which lives to the end of set_* */
 static struct pred_receiver pred_receiver_move(struct pred_receiver *from) { struct pred_receiver r = *from; if (RECV_HOLDS_PTR && g_refs < 8) g_refs++; return r; }
 static void pred_receiver_dtor(struct pred_receiver *r) { if (RECV_HOLDS_PTR) vx_ref_release(r->state); }
+/* auto&& r = std::move(*this): only a reference to the receiver, which stays inside the predecessor operation state with its members */
+static struct pred_receiver pred_receiver_alias(struct pred_receiver *from) { return *from; }
 
 /* ---- consumer's receiver: T-stubs ------------------------------------------------------------------------- */
 static void recv_signal(struct receiver *r)
@@ -141,6 +143,10 @@ static void set_predecessor_done(struct shared_state *s)
   ALIVE("shared state");
   VX_ASSERT(s == vx_self, "set_predecessor_done on the receiver's shared state");
   VX_ASSERT(SPD_PRE(s), "precondition of set_predecessor_done: a non-monostate alternative is stored in v BEFORE done is published");
+  /* set_predecessor_done starts with os.reset(), which destroys the receiver stored in the predecessor operation state together with
+   * whatever reference to the shared state that receiver still owns: the caller needs a reference of its own (unit *.set_predecessor_done
+   * requires g_refs == RECV_HOLDS_PTR) */
+  VX_ASSERT(g_refs >= RECV_HOLDS_PTR, "precondition of set_predecessor_done: the caller holds its own reference to the shared state (the receiver was moved into a local)");
   if (g_spd_calls == 0) { g_spd_index = s->v.index; g_spd_tok = s->v.tok; }
   if (g_spd_calls < 3) g_spd_calls++;
   s->predecessor_done = true;
